@@ -267,9 +267,60 @@ func usesOfBuffer(v ssa.Value, out *[]dataUse, seen map[ssa.Value]bool) {
 			}
 		case *ssa.Store:
 			if x.Val == v {
+				// kept in a local or in a named result: what is done with the loads of that cell
+				if al, isAl := x.Addr.(*ssa.Alloc); isAl && !seen[al] && len(seen) < 200 {
+					seen[al] = true
+					followed := true
+					for _, r2 := range *al.Referrers() {
+						switch y := r2.(type) {
+						case *ssa.Store, *ssa.DebugRef:
+						case *ssa.UnOp:
+							if y.Op == token.MUL {
+								usesOfBuffer(y, out, seen)
+							} else {
+								followed = false
+							}
+						default:
+							followed = false
+						}
+					}
+					if followed {
+						continue
+					}
+				}
 				*out = append(*out, dataUse{"stored", x})
 			}
 		case *ssa.Return:
+			// handed back by a private function of the package (beginFinalise → data, ok, err): what its callers do
+			// with that result
+			f := x.Parent()
+			if obj, isFn := f.Object().(*types.Func); isFn && !obj.Exported() && f.Parent() == nil && relPkg(f) == "tor/piece" && exitProg != nil && len(seen) < 200 {
+				calls, esc := exitProg.callSitesOf(f)
+				idx := -1
+				for i, rv := range x.Results {
+					if rv == v {
+						idx = i
+					}
+				}
+				if len(esc) == 0 && len(calls) > 0 && idx >= 0 {
+					followed := true
+					for _, cs := range calls {
+						cv, isCall := cs.(*ssa.Call)
+						if !isCall {
+							followed = false
+							break
+						}
+						if len(x.Results) == 1 {
+							usesOfBuffer(cv, out, seen)
+						} else if ex := extractOf(cv, idx); ex != nil {
+							usesOfBuffer(ex, out, seen)
+						}
+					}
+					if followed {
+						continue
+					}
+				}
+			}
 			*out = append(*out, dataUse{"returned", x})
 		case *ssa.MakeClosure:
 			*out = append(*out, dataUse{"captured", x})
@@ -547,6 +598,29 @@ func (c *pieceCtx) checkCompleteTransition(rule, key string, cs ssa.CallInstruct
 		return
 	}
 	a0, a1 := eq.Call.Args[0], eq.Call.Args[1]
+	// endFinalise(index, hh, h): the comparison sits in a private helper that is handed the digest and the expected
+	// hash by its only caller: judged with the caller's values
+	if obj, isFn := f.Object().(*types.Func); isFn && !obj.Exported() && f.Parent() == nil {
+		if calls, esc := c.p.callSitesOf(f); len(esc) == 0 && len(calls) == 1 {
+			if call, okc := calls[0].(*ssa.Call); okc && len(call.Call.Args) == len(f.Params) && relPkg(call.Parent()) == "tor/piece" {
+				subst := func(v ssa.Value) (ssa.Value, bool) {
+					for i, pp := range f.Params {
+						if ssa.Value(pp) == strip(v) {
+							return call.Call.Args[i], true
+						}
+					}
+					return v, false
+				}
+				n0, s0 := subst(a0)
+				n1, s1 := subst(a1)
+				if s0 && s1 {
+					a0, a1 = n0, n1
+					f = call.Parent()
+					r.Fn(f)
+				}
+			}
+		}
+	}
 	// hashedBy: v is (a slice of) the SHA-1 of some value x, computed at instruction `site` of this function:
 	// sha1.Sum(x) stored in a local array and sliced, or the result of a package-local helper that returns such a
 	// digest of one of its parameters (digest(data)).
@@ -620,6 +694,10 @@ func (c *pieceCtx) checkCompleteTransition(rule, key string, cs ssa.CallInstruct
 	// sum's argument is the piece's own buffer
 	fv, _ := loadedField(hashed)
 	if fv != c.data {
+		// data, ok, err := ps.beginFinalise(index): the buffer as handed back by a private helper of the package
+		fv = helperResultField(hashed)
+	}
+	if fv != c.data {
 		r.Fail(rule, key, sum.Pos(), "the digest that guards completion is not computed over the piece's buffer (Piece.data)")
 		return
 	}
@@ -638,13 +716,34 @@ func (c *pieceCtx) checkCompleteTransition(rule, key string, cs ssa.CallInstruct
 			domBusy = true
 			return
 		}
-		// markBusy(index): a function of the package that makes the transition on every path
+		// markBusy(index): a function of the package that makes the transition on every path — or, when it hands the
+		// buffer back (beginFinalise → data, ok), on every path on which it hands back a buffer
 		if cc, ok := i2.(*ssa.Call); ok && !cc.Call.IsInvoke() && instrDominates(i2, sum) {
 			if h := cc.Call.StaticCallee(); h != nil && h.Blocks != nil && relPkg(h) == "tor/piece" && h != f {
 				isRet := func(in ssa.Instruction) bool { _, ok := in.(*ssa.Return); return ok }
 				if anyInstr(h, toBusy) != nil {
 					if _, reached := pathsMissingAt(h.Blocks[0], 0, -1, isRet, toBusy, nil, nil); reached == 0 {
 						domBusy = true
+					}
+					// the hashed buffer is this call's result: returns that yield a buffer come after the transition
+					if ex, isEx := strip(hashed).(*ssa.Extract); isEx && ex.Tuple == ssa.Value(cc) {
+						all := true
+						for _, ret := range returnsOf(h) {
+							res := retResults(ret)
+							if ex.Index >= len(res) {
+								all = false
+								break
+							}
+							if isNilConst(res[ex.Index]) || isZeroCell(res[ex.Index], ret) {
+								continue
+							}
+							if _, reached := pathsMissingAt(h.Blocks[0], 0, -1, func(in ssa.Instruction) bool { return in == ssa.Instruction(ret) }, toBusy, nil, nil); reached > 0 {
+								all = false
+							}
+						}
+						if all {
+							domBusy = true
+						}
 					}
 				}
 			}
@@ -1533,4 +1632,73 @@ func runC01(r *Report) {
 	// the handle's semaphore is the only thing that keeps the reply for offset X carrying the bytes of offset X
 	c02R5(r.sub("R7"))
 	r.Notes = append(r.Notes, fmt.Sprintf("lockset: %d lock operations on Pieces.mu seen over %d functions", c.la.nLockOps, len(c.la.funcs)))
+}
+
+// helperResultField: v is a result of a private function of package tor/piece; every return yields, at that index,
+// nil or a load of one and the same struct field: that field.
+func helperResultField(v ssa.Value) *types.Var {
+	var call *ssa.Call
+	idx := 0
+	switch x := strip(v).(type) {
+	case *ssa.Extract:
+		call, _ = x.Tuple.(*ssa.Call)
+		idx = x.Index
+	case *ssa.Call:
+		call = x
+	}
+	if call == nil || call.Call.IsInvoke() {
+		return nil
+	}
+	h := call.Call.StaticCallee()
+	if h == nil || h.Blocks == nil || relPkg(h) != "tor/piece" {
+		return nil
+	}
+	var out *types.Var
+	for _, ret := range returnsOf(h) {
+		res := retResults(ret)
+		if idx >= len(res) {
+			return nil
+		}
+		vals := []ssa.Value{res[idx]}
+		// a named result kept in a cell: the values stored into it
+		if ld, ok := res[idx].(*ssa.UnOp); ok && ld.Op == token.MUL {
+			if al, isAl := ld.X.(*ssa.Alloc); isAl {
+				vals = nil
+				for _, ref := range *al.Referrers() {
+					if st, isSt := ref.(*ssa.Store); isSt && st.Addr == ssa.Value(al) {
+						vals = append(vals, st.Val)
+					}
+				}
+			}
+		}
+		for _, rv := range vals {
+			if isNilConst(rv) {
+				continue
+			}
+			fv, _ := loadedField(rv)
+			if fv == nil || (out != nil && fv != out) {
+				return nil
+			}
+			out = fv
+		}
+	}
+	return out
+}
+
+// isZeroCell: v is a load, at ret, of a named result cell into which nothing was stored on the way.
+func isZeroCell(v ssa.Value, ret *ssa.Return) bool {
+	ld, ok := v.(*ssa.UnOp)
+	if !ok || ld.Op != token.MUL {
+		return false
+	}
+	al, ok := ld.X.(*ssa.Alloc)
+	if !ok {
+		return false
+	}
+	for _, ref := range *al.Referrers() {
+		if st, isSt := ref.(*ssa.Store); isSt && st.Addr == ssa.Value(al) && (instrDominates(st, ret) || instrReaches(st, ret)) {
+			return false
+		}
+	}
+	return true
 }
